@@ -434,7 +434,7 @@ func writeEvidence(verif, prop, tier string, seed int, cr *checkRun, knownHit []
 	if counts == nil {
 		counts = map[string]int{"obligations": 0, "discharged": 0}
 	}
-	meta := propertyMeta[prop]
+	meta := loadPropMeta(verif)[prop]
 	assumptions := append([]string{
 		"the VC generator gvc itself (unverified; guarded by the must-fail corpus, solver agreement and vacuity covers)",
 		"machine integers are modelled exactly (wrap-around per Go type), not as mathematical integers; slice and string lengths are bounded by MaxInt64",
@@ -477,7 +477,24 @@ type propMeta struct {
 	assumptions []string
 }
 
-var propertyMeta = map[string]propMeta{}
+func loadPropMeta(verif string) map[string]propMeta {
+	out := map[string]propMeta{}
+	b, err := os.ReadFile(filepath.Join(verif, "propmeta.json"))
+	if err != nil {
+		return out
+	}
+	var raw map[string]struct {
+		NotDecided  []string `json:"not_decided"`
+		Assumptions []string `json:"assumptions"`
+	}
+	if json.Unmarshal(b, &raw) != nil {
+		return out
+	}
+	for k, v := range raw {
+		out[k] = propMeta{notDecided: v.NotDecided, assumptions: v.Assumptions}
+	}
+	return out
+}
 
 func cmdBaseline(repo, verif, prop string, all bool, timeoutMs int) int {
 	if timeoutMs == 0 {
